@@ -23,13 +23,13 @@ VARIABLE tid
 T == Traces[tid]
 
 \* declarative layer only: the model's constants and variables are dummies here
-D == INSTANCE PinTsv WITH MaxFeat <- 0, MaxRows <- 0, MaxProt <- 0,
+D == INSTANCE PinTsv WITH ProtSep <- ":", MaxFeat <- 0, MaxRows <- 0, MaxProt <- 0,
                           Mut_EndOffByOne <- FALSE, Mut_KeepDD <- FALSE, Mut_ValidSkipsDD <- FALSE,
                           case <- 0, x <- 0, src <- 0, pass <- 0, pc <- 0, cur <- 0, ncol <- 0, idx <- 0,
                           out <- 0, out1 <- 0
 
-X == [lines |-> T.lines_in, nl |-> T.nl_in]
-Y == [lines |-> T.lines_out, nl |-> T.nl_out]
+X == [lines |-> T.lines_in, nl |-> T.nl_in, sep |-> T.sep]
+Y == [lines |-> T.lines_out, nl |-> T.nl_out, sep |-> T.sep]
 Domain == D!InDomain(X)
 
 \* one named clause per obligation (short names: the engine's print parser needs the VERDICT tuple on one line)
@@ -39,13 +39,13 @@ ClausesIn(exp) ==
     RowCount |-> D!OneLinePerPsm(T.lines_out, X),               \* one line per PSM (DefaultDirection dropped)
     Rect     |-> D!RectOut(T.lines_out, X),                     \* rectangular
     Fields   |-> D!NonProteinUnchanged(T.lines_out, X),         \* original order, non-protein fields unchanged
-    Proteins |-> D!ProteinsJoined(T.lines_out, X),              \* proteins joined by ":"
+    Proteins |-> D!ProteinsJoined(T.lines_out, X),              \* proteins joined by the protein separator T.sep
     Exact    |-> T.lines_out = exp,                             \* field by field the recomputed conversion
     ValidIn  |-> T.valid_in = D!ValidDef(X),
     ValidOut |-> T.valid_out /\ Len(T.lines_out) >= 1 /\ D!ValidDef(Y),
     Idem     |-> T.second_pass_equal /\ T.lines_out2 = T.lines_out /\ T.nl_out2 = T.nl_out,
     Cli      |-> T.cli.ran => /\ T.cli.lines = exp
-                              /\ D!ValidDef([lines |-> T.cli.lines, nl |-> T.cli.nl])
+                              /\ D!ValidDef([lines |-> T.cli.lines, nl |-> T.cli.nl, sep |-> T.sep])
                               /\ (D!ValidDef(X) => T.cli.nl = T.nl_in)]
 Order == <<"NoRaise", "Header", "RowCount", "Rect", "Fields", "Proteins", "Exact", "ValidIn", "ValidOut", "Idem", "Cli">>
 Clauses == ClausesIn(D!ConvertDef(X))
